@@ -522,8 +522,8 @@ func heapOp(kind string) trustedFn {
 }
 
 // sortPerm: sort.Sort / sort.Stable on a slice-typed sort.Interface value permute the slice's elements in place:
-// afterwards every slot in range holds one of the old elements and every old element is still in some slot
-// (the ordering produced by Less is not modelled).
+// afterwards the slots in range hold the old elements rearranged by some bijection (the ordering produced by Less is
+// not modelled).
 func sortPerm(fr *Frame, st *State, a []Val, in ssa.Instruction) Val {
 	u := fr.u
 	ci := in.(ssa.CallInstruction)
@@ -545,8 +545,12 @@ func sortPerm(fr *Frame, st *State, a []Val, in ssa.Instruction) Val {
 	newRow := u.enc.freshConst("sorted", "(Array Int "+es+")")
 	off, ln := app("sl_off", x.T), app("sl_len", x.T)
 	u.assume(fmt.Sprintf("(forall ((j!s Int)) (! (=> (not (and (<= %s j!s) (< j!s (+ %s %s)))) (= (select %s j!s) (select %s j!s))) :pattern ((select %s j!s))))", off, off, ln, newRow, oldRow, newRow))
-	u.assume(fmt.Sprintf("(forall ((i!s Int)) (! (=> (and (<= 0 i!s) (< i!s %s)) (exists ((k!s Int)) (and (<= 0 k!s) (< k!s %s) (= (select %s (ix %s i!s)) (select %s (ix %s k!s)))))) :pattern ((select %s (ix %s i!s)))))", ln, ln, newRow, off, oldRow, off, newRow, off))
-	u.assume(fmt.Sprintf("(forall ((k!s Int)) (! (=> (and (<= 0 k!s) (< k!s %s)) (exists ((i!s Int)) (and (<= 0 i!s) (< i!s %s) (= (select %s (ix %s i!s)) (select %s (ix %s k!s)))))) :pattern ((select %s (ix %s k!s)))))", ln, ln, newRow, off, oldRow, off, oldRow, off))
+	// the permutation and its inverse as explicit (Skolem) functions: slot i of the result holds old slot perm(i), old
+	// slot k went to slot inv(k), and the two are inverse to each other (sort.Sort only calls Swap, so it is a bijection)
+	perm := u.enc.declFun(u.enc.freshName("perm"), []string{"Int"}, "Int")
+	inv := u.enc.declFun(u.enc.freshName("perminv"), []string{"Int"}, "Int")
+	u.assume(fmt.Sprintf("(forall ((i!s Int)) (! (=> (and (<= 0 i!s) (< i!s %s)) (and (<= 0 (%s i!s)) (< (%s i!s) %s) (= (%s (%s i!s)) i!s) (= (select %s (ix %s i!s)) (select %s (ix %s (%s i!s)))))) :pattern ((select %s (ix %s i!s))) :pattern ((%s i!s))))", ln, perm, perm, ln, inv, perm, newRow, off, oldRow, off, perm, newRow, off, perm))
+	u.assume(fmt.Sprintf("(forall ((k!s Int)) (! (=> (and (<= 0 k!s) (< k!s %s)) (and (<= 0 (%s k!s)) (< (%s k!s) %s) (= (%s (%s k!s)) k!s) (= (select %s (ix %s (%s k!s))) (select %s (ix %s k!s))))) :pattern ((select %s (ix %s k!s))) :pattern ((%s k!s))))", ln, inv, inv, ln, perm, inv, newRow, off, inv, oldRow, off, oldRow, off, inv))
 	u.heapStoreAt(st, h, app("sl_base", x.T), newRow)
 	u.note("sort.Sort/Stable: modelled as an in-place permutation of the slice (order not modelled)")
 	return unitV()
